@@ -274,7 +274,11 @@ func c14Launch(w *W) {
 	mode := simrt.Choose(4)
 	modes := []string{"Launch", "DoTimes", "Operation.Add", "StartGroup"}
 	nWaiters := 1 + simrt.Choose(2)
-	w.Config("mode=%s k=%d extra-waiters=%d", modes[mode], k, nWaiters)
+	// "top up the pool to its target size" when the pool is already at or above
+	// it: a further DoTimes/StartGroup with a count of zero or less starts
+	// nothing and accounts for nothing
+	topUp := []int{1, 1, 0, -1, -2}[simrt.Choose(5)]
+	w.Config("mode=%s k=%d extra-waiters=%d top-up=%d", modes[mode], k, nWaiters, topUp)
 	exits := make([]int64, 0, k)
 	body := fun.Operation(func(ctx context.Context) {
 		simrt.Yield()
@@ -316,12 +320,18 @@ func c14Launch(w *W) {
 			}
 		case 1:
 			wg.DoTimes(lctx, k, body)
+			if topUp <= 0 {
+				wg.DoTimes(lctx, topUp, body)
+			}
 		case 2:
 			for i := 0; i < k; i++ {
 				body.Add(lctx, wg)
 			}
 		case 3:
 			body.StartGroup(lctx, wg, k)
+			if topUp <= 0 {
+				body.StartGroup(lctx, wg, topUp)
+			}
 		}
 		launchedAt = h.Tick()
 		launcher.state = 1
